@@ -996,7 +996,7 @@ func c21GenPat(r *Rand) string {
 	case 0:
 		return ""
 	case 1:
-		return r.Pick([]string{"*", "?", "a*", "*b", "[ab]", "[!a]", "a", "b", "ab", "??", "*a*", "[a-b]", "[^a]*", "\\*", "[]a]", "?*"})
+		return r.Pick([]string{"*", "?", "a*", "*b", "[ab]", "[!a]", "a", "b", "ab", "??", "*a*", "[a-b]", "[^a]*", "\\*", "[]a]", "?*", "[A-\\.]"})
 	case 2:
 		return genFrom(r, []string{"a", "b", "A"}, 3)
 	}
